@@ -12,6 +12,17 @@ package floodgate
 //	             parts)                        -> real ReadHostname          -> error, never a panic
 //	iv-length  : well-formed message sealed under an IV of 0..16, 24, 32 bytes -> no panic; error, or
 //	             (if accepted) exactly the sealed fields
+//
+// rev9 (gap review):
+//
+//	port suffix: onPreLogin hands ReadHostname the STRING of the virtual host address, i.e.
+//	             host NUL data ":" port. interop-in and the whole mutation family also run on that shape;
+//	             an alteration that leaves the identity data byte-identical and only touches what follows
+//	             it (nothing, or ':' and a port) may be accepted, but only with the same fields
+//	sealed-malformed: a key holder seals a plaintext that is not a 12-field record with integer
+//	             xuid/device/ui/input (Floodgate's BedrockData.fromString refuses those) -> error, no panic
+//	unrepresentable: WriteHostname with a NUL inside a field or the host, or nil data -> error (or something
+//	             the reference decoder reads back identically), no panic
 
 import (
 	"bytes"
@@ -37,7 +48,7 @@ func c39Keys() [][]byte {
 	}
 	k16 := seq(16, 1)
 	k16bit := append([]byte(nil), k16...)
-	k16bit[15] ^= 0x01 // one bit away from k16
+	k16bit[15] ^= 0x01                                           // one bit away from k16
 	k32 := append(append([]byte(nil), k16...), seq(16, 0x80)...) // k16 is a prefix of k32
 	return [][]byte{k16, k16bit, seq(24, 0x40), k32, bytes.Repeat([]byte{0x13}, 16), bytes.Repeat([]byte{0}, 32)}
 }
@@ -92,6 +103,9 @@ func c39Records(pairs bool) []ref.Record {
 	}
 	return out
 }
+
+// what follows the data when the hostname is the String() of the virtual host address
+var c39Suffixes = []string{":25565", ":0", ":65535", ":"}
 
 var c39Hosts = []string{"play.example.org", "", "play.example.org:19132", "[2001:db8::1]:25565", "mc.example.org\tx"}
 
@@ -148,6 +162,9 @@ type c39case struct {
 	Off    int    // offset relative to the NUL
 	Val    int    // substituted / inserted byte
 	N      int    // iv length for iv-length / iv-cut
+	Suffix string // appended to the encoded hostname (":25565": the shape onPreLogin passes in)
+	Plain  []byte // sealed-malformed: the plaintext that is sealed
+	Bad    string // unrepresentable: which input of WriteHostname is unrepresentable
 }
 
 type c39 struct {
@@ -177,7 +194,7 @@ func (c *c39) encoded(cs c39case) string {
 	if err != nil {
 		c.r.T.Fatalf("reference encoder failed: %v", err)
 	}
-	return h
+	return h + cs.Suffix
 }
 
 // interopIn: Floodgate -> proxy.
@@ -263,6 +280,26 @@ func (c *c39) mustReject(cs c39case, fg *Floodgate, h string, orig *BedrockData)
 	}
 }
 
+// mayAcceptSame runs ReadHostname on a hostname whose identity data is byte-identical to the original and
+// only what follows it (the ":port" region) differs: no panic, and if accepted then with the same fields.
+func (c *c39) mayAcceptSame(cs c39case, fg *Floodgate, h string, orig *BedrockData) {
+	c.r.Eval(1)
+	var got *BedrockData
+	var err error
+	if p, pv := vrt.Catch(func() { _, got, err = fg.ReadHostname(h) }); p {
+		c.vio("ReadHostname/panic:"+panicKind(pv), cs, fmt.Sprintf("%v\nhostname=%q", pv, h))
+		return
+	}
+	if err != nil {
+		c.r.Class("port-region-altered:rejected")
+		return
+	}
+	c.r.Class("port-region-altered:accepted-same-fields")
+	if got == nil || diffData(got, orig) != "" {
+		c.vio("ReadHostname/port-region-altered/different-fields", cs, fmt.Sprintf("identity data untouched, port region altered, decoded to other fields %+v\nhostname=%q", got, h))
+	}
+}
+
 func nextB64(b byte) byte {
 	const a = "ABCDEFGHIJKLMNOPQRSTUVWXYZabcdefghijklmnopqrstuvwxyz0123456789+/"
 	i := strings.IndexByte(a, b)
@@ -279,11 +316,15 @@ func (c *c39) mutations(cs c39case, only *c39case) {
 	fg := c.fgs[cs.Key]
 	orig, _ := wantData(cs.Record)
 	nul := strings.IndexByte(h, 0)
-	tail := h[nul:] // NUL + data
+	tail := h[nul:] // NUL + data (+ suffix)
 	head := h[:nul]
+	intact := h[:len(h)-len(cs.Suffix)] // host NUL data: everything that is identity data
 	run := func(mut string, off, val, n int, alt string) {
 		if alt == h {
 			return
+		}
+		if cs.Suffix != "" {
+			mut = "port-suffixed:" + mut
 		}
 		m := cs
 		m.Kind, m.Mut, m.Off, m.Val, m.N = "mutation", mut, off, val, n
@@ -291,6 +332,11 @@ func (c *c39) mutations(cs c39case, only *c39case) {
 			return
 		}
 		c.r.Class("mutation:" + mut)
+		// identity data byte-identical and followed by nothing or by ':' -> only the port region differs
+		if rest, ok := strings.CutPrefix(alt, intact); ok && (rest == "" || rest[0] == ':') {
+			c.mayAcceptSame(m, fg, alt, orig)
+			return
+		}
 		c.mustReject(m, fg, alt, orig)
 	}
 	// substitution alphabet
@@ -325,19 +371,19 @@ func (c *c39) mutations(cs c39case, only *c39case) {
 		}
 	}
 	for off := 1; off <= len(tail); off++ {
-		for _, v := range []byte{'\n', '\r', 'A', '!', '=', 0x00, ' '} {
+		for _, v := range []byte{'\n', '\r', 'A', '!', '=', 0x00, ' ', ':'} {
 			run("insertion", off, int(v), 0, head+tail[:off]+string([]byte{v})+tail[off:])
 		}
 	}
 	// structure: splitter games and IV sizes, built from the decoded parts
-	data := []byte(tail[1:])
+	data := []byte(tail[1 : len(tail)-len(cs.Suffix)])
 	iv, ct, err := ref.Split(data)
 	if err != nil {
 		c.r.T.Fatalf("reference cannot split its own encoding: %v", err)
 	}
 	hd := string(ref.Header())
 	b64 := func(b []byte) string { return string(ref.B64Encode(b)) }
-	put := func(s string) string { return head + "\x00" + s }
+	put := func(s string) string { return head + "\x00" + s + cs.Suffix }
 	run("no-splitter", 0, 0, 0, put(hd+b64(iv)+b64(ct)))
 	run("splitter-doubled", 0, 0, 0, put(hd+b64(iv)+"!!"+b64(ct)))
 	run("splitter-trailing", 0, 0, 0, put(hd+b64(iv)+"!"+b64(ct)+"!"))
@@ -415,6 +461,139 @@ func (c *c39) wrongKey(cs c39case) {
 	c.mustReject(cs, c.fgs[cs.Key2], h, orig)
 }
 
+// ---- rev9: sealed-malformed ----
+
+type c39plain struct {
+	name  string
+	plain string
+	// dontCare: a 12-field record (as Floodgate reads it) that the proxy is free to refuse (xuid 0, empty
+	// username, Java's split dropping a trailing empty field): accepted is fine if the first 12 fields match
+	dontCare bool
+}
+
+func c39Malformed() []c39plain {
+	b := c39Base
+	join := func(f []string) string { return strings.Join(f, "\x00") }
+	with := func(i int, v string) string { r := b; r[i] = v; return r.String() }
+	out := []c39plain{
+		{"empty-plaintext", "", false},
+		{"fields:1", "Steve", false},
+		{"fields:11-last-dropped", join(b[:11]), false},
+		{"fields:11-first-dropped", join(b[1:]), false},
+		{"fields:13-extra", b.String() + "\x00extra", false},
+		{"fields:13-leading-nul", "\x00" + b.String(), false},
+		{"fields:24-record-twice", b.String() + "\x00" + b.String(), false},
+		{"fields:13-trailing-nul", b.String() + "\x00", true},
+		{"xuid:0", with(ref.FXuid, "0"), true},
+		{"xuid:-0", with(ref.FXuid, "-0"), true},
+		{"username:empty", with(ref.FUsername, ""), true},
+	}
+	for _, f := range []int{ref.FXuid, ref.FDeviceOS, ref.FUIProfile, ref.FInputMode} {
+		over := "99999999999999999999"
+		if f == ref.FXuid {
+			over = "9223372036854775808" // MaxInt64+1
+		}
+		for _, v := range []string{"", "x", "1.5", " 1", "1 ", "0x1", "1e1", "--1", over} {
+			out = append(out, c39plain{fmt.Sprintf("%s:not-an-integer:%q", ref.FieldNames[f], v), with(f, v), false})
+		}
+	}
+	return out
+}
+
+// malformedKind is the violation-key part of a malformed plaintext's name: what is wrong, not the value.
+func malformedKind(name string) string {
+	p := strings.SplitN(name, ":", 3)
+	switch {
+	case p[0] == "fields" || p[0] == "empty-plaintext":
+		return "field-count"
+	case len(p) >= 2 && p[1] == "not-an-integer":
+		return p[0] + "-not-an-integer"
+	}
+	return p[0]
+}
+
+// sealedMalformed: the plaintext cs.Plain sealed by a key holder (reference encryptor) and handed to ReadHostname.
+func (c *c39) sealedMalformed(cs c39case, dontCare bool) {
+	c.r.Eval(1)
+	enc, err := ref.Encrypt(c.keys[cs.Key], c.ivs[cs.IV], cs.Plain)
+	if err != nil {
+		c.r.T.Fatalf("reference encoder: %v", err)
+	}
+	h := c39Hosts[cs.Host] + "\x00" + string(enc) + cs.Suffix
+	var got *BedrockData
+	if p, pv := vrt.Catch(func() { _, got, err = c.fgs[cs.Key].ReadHostname(h) }); p {
+		c.vio("ReadHostname/panic:"+panicKind(pv), cs, fmt.Sprintf("sealed plaintext %q: %v", cs.Plain, pv))
+		return
+	}
+	if err != nil {
+		return
+	}
+	if dontCare {
+		// accepted: then it must be the first 12 fields of what was sealed
+		parts := strings.Split(string(cs.Plain), "\x00")
+		if len(parts) >= ref.Fields {
+			var rec ref.Record
+			copy(rec[:], parts[:ref.Fields])
+			if want, ok := wantData(rec); ok && got != nil && diffData(got, want) == "" {
+				c.r.Class("sealed-malformed:dont-care-accepted-same-fields")
+				return
+			}
+		}
+	}
+	c.vio("ReadHostname/malformed-record-accepted/"+malformedKind(cs.Mut), cs, fmt.Sprintf("sealed plaintext %q has no 12-field integer reading (Floodgate's BedrockData.fromString refuses it) but was decoded to %+v", cs.Plain, got))
+}
+
+// ---- rev9: unrepresentable inputs of WriteHostname ----
+
+var c39Unrepresentable = []string{"nil-data", "host", "Version", "Username", "Language", "IP", "LinkedPlayer", "SubscribeID", "VerifyCode"}
+var c39NulForms = []string{"a\x00b", "\x00", "\x00lead", "trail\x00"}
+
+func (c *c39) unrepresentable(cs c39case) {
+	c.r.Eval(1)
+	d, _ := wantData(c39Base)
+	host := c39Hosts[cs.Host]
+	bad := c39NulForms[cs.Val]
+	switch cs.Bad {
+	case "nil-data":
+		d = nil
+	case "host":
+		host = bad
+	case "Version":
+		d.Version = bad
+	case "Username":
+		d.Username = bad
+	case "Language":
+		d.Language = bad
+	case "IP":
+		d.IP = bad
+	case "LinkedPlayer":
+		d.LinkedPlayer = bad
+	case "SubscribeID":
+		d.SubscribeID = bad
+	case "VerifyCode":
+		d.VerifyCode = bad
+	default:
+		c.r.T.Fatalf("unknown unrepresentable input %q", cs.Bad)
+	}
+	var h string
+	var err error
+	if p, pv := vrt.Catch(func() { h, err = c.fgs[cs.Key].WriteHostname(host, d) }); p {
+		c.vio("WriteHostname/panic", cs, fmt.Sprintf("unrepresentable %s: %v", cs.Bad, pv))
+		return
+	}
+	if err != nil {
+		c.r.Class("unrepresentable:" + cs.Bad + ":refused")
+		return
+	}
+	// not refused: then Floodgate must read back exactly what was handed in
+	if d != nil {
+		if gh, rec, derr := ref.DecodeHostname(c.keys[cs.Key], h); derr == nil && gh == host && rec == recordOf(d) {
+			return
+		}
+	}
+	c.vio("WriteHostname/unrepresentable-encoded/"+cs.Bad, cs, fmt.Sprintf("WriteHostname(%q, %+v) returned %q without error, which Floodgate's decoder cannot read back to the same host and fields", host, d, h))
+}
+
 func selfTest(t *testing.T) {
 	// the hand-written base64 of the reference must agree with RFC 4648 as implemented by the standard library
 	for n := 0; n <= 70; n++ {
@@ -470,6 +649,16 @@ func TestVerif(t *testing.T) {
 				c.wrongKey(rp)
 			case "iv-length":
 				c.ivLength(rp)
+			case "sealed-malformed":
+				dc := false
+				for _, m := range c39Malformed() {
+					if m.name == rp.Mut {
+						dc = m.dontCare
+					}
+				}
+				c.sealedMalformed(rp, dc)
+			case "unrepresentable":
+				c.unrepresentable(rp)
 			case "mutation":
 				base := rp
 				base.Kind, base.Mut, base.Off, base.Val, base.N = "", "", 0, 0, 0
@@ -508,6 +697,11 @@ func TestVerif(t *testing.T) {
 				cs.Kind = "interop-in"
 				r.Class("interop-in")
 				c.interopIn(cs)
+				// the shape onPreLogin passes in: the virtual host's String(), i.e. with ":port" after the data
+				cs.Suffix = c39Suffixes[(ri+ki)%len(c39Suffixes)]
+				r.Class("interop-in:port-suffix")
+				c.interopIn(cs)
+				cs.Suffix = ""
 				cs.Kind = "interop-out"
 				r.Class("interop-out")
 				c.interopOut(cs)
@@ -523,6 +717,11 @@ func TestVerif(t *testing.T) {
 					cs := c39case{Kind: "interop-in", Key: ki, IV: ii, Host: hi, Record: c39Base}
 					r.Class("interop-in")
 					c.interopIn(cs)
+					for _, sfx := range c39Suffixes {
+						cs.Suffix = sfx
+						r.Class("interop-in:port-suffix")
+						c.interopIn(cs)
+					}
 				}
 			}
 		}
@@ -563,6 +762,48 @@ func TestVerif(t *testing.T) {
 						continue
 					}
 					c.mutations(c39case{Key: ki, IV: ii, Host: 0, Record: rec}, nil)
+					r.Nontrivial(1)
+				}
+			}
+		}
+		// the same mutation families on the port-suffixed shape
+		for _, ki := range []int{0, 2, 3} {
+			for _, ii := range []int{1, 3} {
+				if r.Quick() && ki != 0 {
+					continue
+				}
+				for _, rec := range mrecs[:3] {
+					if !mine() {
+						continue
+					}
+					c.mutations(c39case{Key: ki, IV: ii, Host: 0, Record: rec, Suffix: ":25565"}, nil)
+					r.Nontrivial(1)
+				}
+			}
+		}
+		// plaintexts that are not a record, sealed by a key holder
+		for mi, m := range c39Malformed() {
+			for ki := range c.keys {
+				if !mine() {
+					continue
+				}
+				sfx := ""
+				if (mi+ki)%2 == 1 {
+					sfx = ":25565"
+				}
+				r.Class("sealed-malformed:" + strings.SplitN(m.name, ":", 2)[0])
+				c.sealedMalformed(c39case{Kind: "sealed-malformed", Key: ki, IV: (mi + ki) % len(c.ivs), Host: mi % len(c39Hosts), Mut: m.name, Plain: []byte(m.plain), Suffix: sfx}, m.dontCare)
+				r.Nontrivial(1)
+			}
+		}
+		// WriteHostname inputs that the format cannot carry
+		for _, bad := range c39Unrepresentable {
+			for vi := range c39NulForms {
+				for _, ki := range []int{0, 2, 3} {
+					if (bad == "nil-data" && vi > 0) || !mine() {
+						continue
+					}
+					c.unrepresentable(c39case{Kind: "unrepresentable", Key: ki, Host: vi % len(c39Hosts), Bad: bad, Val: vi})
 					r.Nontrivial(1)
 				}
 			}
